@@ -126,10 +126,18 @@ func Parse(src, fileName string, wrap func(string) io.Reader) (prog *ast.Program
 	return p, "", ""
 }
 
+// Tally of Run calls and of those whose source did not parse (process-wide; read by the
+// framework to expose vacuous generators in the evidence).
+var RunCount, ParseErrCount int
+
 // Run parses and evaluates src in a fresh scope enclosed in the const env.
 func (ip *Interp) Run(src string, opt Options) *Obs {
 	o := &Obs{}
 	prog, perr, pp := Parse(src, opt.FileName, opt.Reader)
+	RunCount++
+	if perr != "" {
+		ParseErrCount++
+	}
 	if pp != "" {
 		o.Panic = "parse: " + pp
 		return o
